@@ -112,11 +112,20 @@ class SeqMachine(StructMachine):
             for c, r in reversed(res):
                 val = If(c, r, val) if is_sym(c) else (r if c else val)
             return Opt(found, val)
-        if isinstance(recv, VecV) and meth == "skip" and args and not isinstance(args[0], int):
+        if isinstance(recv, VecV) and meth in ("skip", "take") and args and (is_sym(args[0]) or isinstance(args[0], int)) \
+                and not isinstance(args[0], bool):
+            # symbolic count: an element is kept when its rank among the live elements before it is >= n (skip) / < n (take)
             n = args[0]
-            if any(not (isinstance(v, TupleV) and isinstance(v.elems[0], int)) for _, v in recv.items):
-                raise Unsupported("skip(symbolic) over something that is not a dense enumerate()")
-            return VecV(tuple((And(g, v.elems[0] >= n), v) for g, v in recv.items))
+            out, rank = [], 0
+            for g, v in recv.items:
+                keep = (rank >= n) if meth == "skip" else (rank < n)
+                out.append((And(g, keep), v))
+                rank = rank + (If(g, 1, 0) if is_sym(g) else (1 if g else 0))
+            return VecV(tuple((g, v) for g, v in out if is_sym(g) or g))
+        if isinstance(recv, Opt) and meth == "is_none_or" and args and isinstance(args[0], Closure):
+            if recv.val is None:
+                return Not(recv.present)
+            return Or(Not(recv.present), self.as_bool(self.call_closure(args[0], [recv.val], fr, And(guard, recv.present))))
         return super().builtin_method(recv, meth, args, e, fr, guard)
 
 
